@@ -76,3 +76,67 @@ Lemma readers_view_unreadable s :
 Proof.
   unfold from_string_view, is_valid_view. rewrite c_view_unreadable. split; reflexivity.
 Qed.
+
+(* ------------------------------------------------------------------------------------------ *)
+(* Unicode::length on the bytes that start an encoding: the length of that encoding             *)
+(* ------------------------------------------------------------------------------------------ *)
+From Coq Require Import ZifyBool.
+Ltac Zify.zify_post_hook ::= Z.div_mod_to_equations.
+
+Ltac split_ifs := repeat match goal with |- context [if ?c then _ else _] => destruct c eqn:? end.
+
+Lemma length_of_lead_byte cp : 0 <= cp < 1114112 ->
+  utf8_length (hd 0 (rfc3629 cp)) = Z.of_nat (length (rfc3629 cp)) /\ starts_encoding (hd 0 (rfc3629 cp)) = true.
+Proof.
+  intros H. unfold rfc3629.
+  destruct (cp <? 128) eqn:E1; [|destruct (cp <? 2048) eqn:E2; [|destruct (cp <? 65536) eqn:E3]]; cbn [hd length].
+  - rewrite utf8_length_lead_len by lia. unfold lead_len, starts_encoding. split; [split_ifs; lia|lia].
+  - assert (B : 194 <= 192 + cp / 64 <= 223) by lia. remember (192 + cp / 64) as b eqn:Eb; clear Eb.
+    rewrite utf8_length_lead_len by lia. unfold lead_len, starts_encoding. split; [split_ifs; lia|lia].
+  - assert (B : 224 <= 224 + cp / 4096 <= 239) by lia. remember (224 + cp / 4096) as b eqn:Eb; clear Eb.
+    rewrite utf8_length_lead_len by lia. unfold lead_len, starts_encoding. split; [split_ifs; lia|lia].
+  - assert (B : 240 <= 240 + cp / 262144 <= 244) by lia. remember (240 + cp / 262144) as b eqn:Eb; clear Eb.
+    rewrite utf8_length_lead_len by lia. unfold lead_len, starts_encoding. split; [split_ifs; lia|lia].
+Qed.
+
+Lemma starts_encoding_has_witness b : starts_encoding b = true ->
+  0 <= lead_witness b < 1114112 /\ hd 0 (rfc3629 (lead_witness b)) = b.
+Proof.
+  intros H. assert (R : 0 <= b < 256) by (unfold starts_encoding in H; lia).
+  assert (G : (negb (starts_encoding b) ||
+               ((0 <=? lead_witness b) && (lead_witness b <? 1114112) && (hd 0 (rfc3629 (lead_witness b)) =? b)))%bool = true).
+  { clear H. revert b R.
+    apply (sweep1 (fun b => (negb (starts_encoding b) ||
+               ((0 <=? lead_witness b) && (lead_witness b <? 1114112) && (hd 0 (rfc3629 (lead_witness b)) =? b)))%bool) 256).
+    vm_compute. reflexivity. }
+  rewrite H in G. cbn [negb orb] in G. lia.
+Qed.
+
+(* the other 77 bytes start no encoding *)
+Lemma other_bytes_start_nothing b cp : 0 <= cp < 1114112 -> hd 0 (rfc3629 cp) = b -> starts_encoding b = true.
+Proof. intros H <-. apply (length_of_lead_byte cp H). Qed.
+
+(* strict UTF-8 text (no encoded surrogates) is in particular a concatenation of encodings of code points *)
+Lemma utf8_strict_fuel_text : forall fuel bs, utf8_strict_fuel fuel bs = true -> utf8_text_fuel fuel bs = true.
+Proof.
+  induction fuel as [|f IH]; intros bs H; [discriminate H|].
+  cbn [utf8_strict_fuel] in H. cbn [utf8_text_fuel].
+  destruct bs as [|b t]; [reflexivity|].
+  destruct (utf8_first (b :: t)) as [cp|]; [|discriminate H].
+  apply andb_true_iff in H. destruct H as [_ H]. apply IH. exact H.
+Qed.
+
+Lemma utf8_strict_is_text bs : utf8_strict bs = true -> utf8_text bs = true.
+Proof. apply utf8_strict_fuel_text. Qed.
+
+Lemma is_valid_utf8_strict bs : utf8_strict bs = true -> is_valid bs = Ok true.
+Proof. intros H. apply is_valid_utf8_text, utf8_strict_is_text, H. Qed.
+
+Lemma base64_view_readable s tail : tail <> [] -> from_base64_view s tail = from_base64 s.
+Proof.
+  intros Hne. destruct tail as [|t tl]; [contradiction Hne; reflexivity|].
+  unfold from_base64_view. rewrite c_view_readable. reflexivity.
+Qed.
+
+Lemma base64_view_unreadable s : from_base64_view s [] = Err OutOfBounds.
+Proof. unfold from_base64_view. rewrite c_view_unreadable. reflexivity. Qed.
